@@ -60,6 +60,8 @@ def _convert_expr(e, variables_dict):
         elif e.op == Op.IF:
             return z3.If(operands[0], operands[1], operands[2])
         elif e.op == Op.ALLDIFF:
+            if len(operands) <= 1:
+                return z3.BoolVal(True)
             return z3.Distinct(operands)
 
 
